@@ -119,7 +119,7 @@ def run(pid, repo, verbose=True, jobs=16):
     vs = [v for v in variants.VARIANTS if pid in v['props']]
     if not vs:
         print(f'selftest {pid}: no variants')
-        return True
+        return True, dict(variants=0)
     base = analyse(pid, repo)
     base_keys = {f.key for f in base.findings}
     work = [(pid, repo, v, base_keys) for v in vs]
@@ -138,4 +138,11 @@ def run(pid, repo, verbose=True, jobs=16):
     print(f'selftest {pid}: {len(vs)} variants ({nb} breaking, '
           f'{len(vs) - nb} benign): {n["ok"]} ok, {n["fail"]} failed, '
           f'{n["stale"]} stale')
-    return ok
+    summary = dict(
+        variants=len(vs), breaking=nb, benign=len(vs) - nb, ok=n['ok'],
+        failed=n['fail'], stale=n['stale'],
+        detected=[r['id'] for r, v in zip(results, vs)
+                  if v['kind'] == 'breaking' and r['status'] == 'ok'],
+        silent_on=[r['id'] for r, v in zip(results, vs)
+                   if v['kind'] == 'benign' and r['status'] == 'ok'])
+    return ok, summary
